@@ -511,6 +511,12 @@ func c19Accum(p *Prog, c *Check, rule, key, site string, root *ssa.Function, afi
 				// $g is the running sum: phi with init 0 and step = this same sum
 				if gphi, ok := gb["g"].Val.(*ssa.Phi); ok && gphi.Block() == loop.Header {
 					good = true
+					// the running sum is unsigned 64-bit: a signed sum of attacker-chosen gas limits (each up to
+					// MaxInt64) wraps negative and passes the limit check
+					if sz, uns, isI := isInt(gphi.Type()); !isI || !uns || sz != 64 {
+						good = false
+						why = "the running gas sum is not an unsigned 64-bit value (a signed sum of queued gas limits can wrap negative and stay below the limit)"
+					}
 					for k, e := range gphi.Edges {
 						et := fi.T(e)
 						if loop.Blocks[gphi.Block().Preds[k]] {
